@@ -108,8 +108,10 @@ pub fn gen_case(prop: &str, rng: &mut Rng) -> Case {
             3 => {
                 if rng.chance(3, 4) {
                     Step::Guard(i, guard_ops(rng))
-                } else {
+                } else if rng.chance(1, 2) {
                     Step::ReadHold(i)
+                } else {
+                    Step::CountsGuarded(i, rng.below(4) as u8, rng.below(4) as u8)
                 }
             }
             4 => {
@@ -120,7 +122,9 @@ pub fn gen_case(prop: &str, rng: &mut Rng) -> Case {
                 }
             }
             5 => {
-                if rng.chance(2, 5) {
+                if handle_heavy && rng.chance(1, 6) {
+                    Step::CountsGuarded(i, rng.below(4) as u8, rng.below(4) as u8)
+                } else if rng.chance(2, 5) {
                     Step::CloneOwner(i)
                 } else {
                     Step::DropOwner(i)
